@@ -3,6 +3,8 @@ package offline
 import (
 	"crypto/md5"
 
+	"github.com/google/uuid"
+
 	vp "github.com/Tnze/go-mc/internal/zzvp"
 )
 
@@ -20,6 +22,30 @@ func VP_C18_uuid() {
 	d[8] = d[8]&0x3f | 0x80
 	for i := range d {
 		vp.Assert(got[i] == d[i], "UUID == md5 digest with version 3 and RFC 4122 variant")
+	}
+	vp.Cover("end")
+}
+
+// several names in one process: each UUID is that of its own name, whatever was
+// asked before (two and three calls with arbitrary names of 1..3 bytes - names
+// that differ only in case, or are equal, included).
+func VP_C18_uuid_history() {
+	vp.SizeBound(64)
+	calls := 2 + vp.Choice(2)
+	names := make([]string, calls)
+	got := make([]uuid.UUID, calls)
+	n := 1 + vp.Choice(3)
+	for i := range names {
+		names[i] = string(vp.Bytes(n))
+		got[i] = NameToUUID(names[i])
+	}
+	for i := range names {
+		d := md5.Sum([]byte("OfflinePlayer:" + names[i]))
+		d[6] = d[6]&0x0f | 0x30
+		d[8] = d[8]&0x3f | 0x80
+		for k := range d {
+			vp.Assert(got[i][k] == d[k], "UUID == md5 digest with version 3 and RFC 4122 variant")
+		}
 	}
 	vp.Cover("end")
 }
